@@ -15,6 +15,8 @@ def configs(tier, rng):
         cfg["opt"] = S.OPTS[(j // 3) % 4]
         if j % 4 == 1:
             cfg["param_gen"] = True; cfg["obs_gen"] = True        # both auxiliary generators at once
+        if j % 6 == 2:
+            cfg["obs_gen"] = True; cfg["sharding"] = True; cfg["n"] = max(cfg["n"], 3)     # the obs_batch_sharding route (plain Python loop)
         if j % 5 == 4:
             cfg["resume"] = rng.randint(1, 4)
         if j % 7 == 3:
